@@ -416,7 +416,7 @@ func (layersSuite) Run(raw json.RawMessage) []Step {
 	shape = append(shape, fmt.Sprintf("origins:%d", min(len(origins), 8)), fmt.Sprintf("replaces:%d", min(nrep, 6)))
 
 	// the filesystem (built once; splitLayers only reads it)
-	fsys, ferr := lPopulate(c, pkgs)
+	fsys, ownerOf, ferr := lPopulate(c, pkgs)
 	var walk []build.VerifWalkEntry
 	var single []lEntry
 	ids := map[string]int{}
@@ -468,6 +468,25 @@ func (layersSuite) Run(raw json.RawMessage) []Step {
 		}
 		shape = append(shape, fmt.Sprintf("walk:%d", min(len(walk)/10*10, 80)), fmt.Sprintf("depth:%d", min(depth, 9)),
 			fmt.Sprintf("unowned-files:%d", min(len(walk)-nd-nown, 5)))
+		// ownership as the layering sees it (tarfs' Package() side channel) against the harness's own record of which
+		// package's entry was installed at the path last: a later rewrite of the file (configuration) keeps its owner
+		verdict, nchk := "pass", 0
+		for _, w := range walk {
+			want, ok := ownerOf[w.Path]
+			if !ok || w.IsDir {
+				continue
+			}
+			if fi, e := fsys.Lstat(w.Path); e != nil || !fi.Mode().IsRegular() {
+				continue
+			}
+			nchk++
+			if w.Owner != want && verdict == "pass" {
+				verdict = fmt.Sprintf("fail:%s was installed by package %q, the layering sees owner %q", w.Path, want, w.Owner)
+			}
+		}
+		steps = append(steps, Step{Line: "x.robust\tlayers-owner-" + fmt.Sprint(len(raw)), Go: fmt.Sprintf("checked=%d", nchk), Mode: "oracle-go", GoSpec: verdict, NoImpl: true,
+			Desc: fmt.Sprintf("owner of every package file after all operations: pkgs=%s ops=%s", lDescPkgs(c), lDescOps(c)), Tags: []string{fmt.Sprintf("owner-checked:%d", min(nchk, 5))},
+			Trivial: nchk == 0})
 	} else {
 		shape = append(shape, "fs:conflict")
 	}
@@ -616,8 +635,9 @@ func lDescOps(c lCase) string {
 
 // lPopulate applies the ops to a fresh tarfs.  A file conflict between unrelated packages makes the
 // whole case a grouping-only case (the build would fail before layering).
-func lPopulate(c lCase, pkgs []*apk.Package) (fsys apkfs.FullFS, err error) {
+func lPopulate(c lCase, pkgs []*apk.Package) (fsys apkfs.FullFS, ownerOf map[string]string, err error) {
 	m := tarfs.New()
+	ownerOf = map[string]string{} // regular file -> package whose entry was installed there last (the harness's own record)
 	content := fstest.MapFS{}
 	var owned []string
 	for _, op := range c.Ops {
@@ -636,6 +656,7 @@ func lPopulate(c lCase, pkgs []*apk.Package) (fsys apkfs.FullFS, err error) {
 			installed, err = m.WriteHeader(hdr, sub, pkgs[op.Pkg])
 			if installed {
 				owned = append(owned, op.Path)
+				ownerOf[strings.TrimPrefix(op.Path, "/")] = pkgs[op.Pkg].Name
 			}
 		case "symlink":
 			sum := sha1.Sum([]byte(op.Target)) //nolint:gosec
@@ -673,10 +694,10 @@ func lPopulate(c lCase, pkgs []*apk.Package) (fsys apkfs.FullFS, err error) {
 			}
 		}
 		if err != nil {
-			return nil, err
+			return nil, nil, err
 		}
 	}
-	return m, nil
+	return m, ownerOf, nil
 }
 
 func parentDir(p string) string {
